@@ -701,6 +701,9 @@ class Interp:
                 import dataclasses
                 if direct and dataclasses.is_dataclass(cls) and not hasattr(cls, '__post_init__') and is_repo_obj(object.__new__(cls)):
                     direct = False            # generated __init__ of a plain repository dataclass only stores its fields
+                if direct and issubclass(cls, tuple) and hasattr(cls, '_fields') and new is not None and not is_repo_func(new) \
+                        and getattr(cls, '__module__', '').startswith('xlcalculator'):
+                    direct = False            # a (typing.)NamedTuple of the repository: the generated __new__ only stores its fields
                 if direct and dataclasses.is_dataclass(cls) and is_repo_func(getattr(cls, '__post_init__', None)) \
                         and init is cls.__dict__.get('__init__') and is_repo_obj(object.__new__(cls)):
                     # the generated __init__ of a repository dataclass: store the fields (defaults / factories for the
